@@ -328,6 +328,39 @@ def asgiRemoteAddr (s : Scope) (store : Dict) : Out Hp.Str :=
   | .bad400 => .bad400
   | .exc => .exc
 
+/-! ### everything the two request classes say about the request line and the connection, as one record -/
+structure View where
+  method : Out Str
+  path : Out Str
+  /-- `none`: the constructor raised (UnicodeDecodeError) -/
+  queryString : Option Str
+  params : Option Qs.Params
+  rootPath : Str
+  scheme : Out Str
+  host : Out Hp.Str
+  port : Out (Option Int)
+  netloc : Out Str
+  remoteAddr : Out Hp.Str
+  accessRoute : Out (List Hp.Str)
+
+/-- `RequestOptions`: strip_url_path_trailing_slash, keep_blank_qs_values, auto_parse_qs_csv -/
+structure Opts where
+  strip : Bool
+  keepBlank : Bool
+  csv : Bool
+
+def wsgiView (env : Dict) (o : Opts) : View :=
+  { method := wsgiMethod env, path := wsgiPath env o.strip, queryString := some (wsgiQueryString env),
+    params := some (wsgiParams env o.keepBlank o.csv), rootPath := wsgiRootPath env, scheme := wsgiScheme env, host := wsgiHost env,
+    port := wsgiPort env, netloc := wsgiNetloc env, remoteAddr := .ok (wsgiRemoteAddr env), accessRoute := .ok (wsgiAccessRoute env) }
+
+def asgiView (s : Scope) (o : Opts) : View :=
+  let store := Wr.asgiStore s.headers
+  { method := .ok (asgiMethod s), path := .ok (asgiPath s o.strip), queryString := asgiQueryString s,
+    params := asgiParams s o.keepBlank o.csv, rootPath := asgiRootPath s, scheme := .ok (asgiScheme s), host := asgiHost s store,
+    port := asgiPort s store, netloc := .ok (asgiNetloc s store), remoteAddr := asgiRemoteAddr s store,
+    accessRoute := asgiAccessRoute s store }
+
 /-! ### the domain on which the two interfaces describe the same request -/
 /-- RFC 3986: the request-target is ASCII (arbitrary bytes only percent-encoded) -/
 def wfTarget (c : Conn) : Bool := c.target.all fun b => decide (b.toNat < 128)
@@ -353,6 +386,8 @@ def mkConn (method target scheme : String) (server : String × Nat) (client : Op
   { method := lit method, target := target.toList.map fun ch => ch.toNat.toUInt8, scheme := lit scheme,
     server := (lit server.1, server.2), client := client.map fun a => (lit a.1, a.2), rootPath := lit rootPath,
     headers := hs.map fun h => (lit h.1, lit h.2) }
+
+def withTarget (c : Conn) (t : Bytes) : Conn := { c with target := t }
 
 /-- a non-trivial request inside the domain: percent-encoded UTF-8 and an invalid sequence in the path, a trailing slash,
     a query with a repeated key / an escape / a blank, no Host header, a non-default port, a mount point -/
